@@ -1474,3 +1474,256 @@ func walkState(repo string) (string, error) {
 	fmt.Fprintf(&sb, "Definition gen_deadcode_writes_in_walker : N := %d.\nDefinition gen_currentfunc_writes_in_walker : N := %d.\n", inWalker["deadcode"], inWalker["currentFunc"])
 	return sb.String(), nil
 }
+
+// ---------------------------------------------------------------------------------------------- runnerstate (C09)
+// Inventory of the mutable state a run can see, and how a run (re)initialises it.
+
+func init() {
+	subcommands["runnerstate"] = func(repo string, args []string) (string, error) { return runnerState(repo) }
+}
+
+func wkStructFields(f *ast.File, name string) ([]string, bool) {
+	var out []string
+	found := false
+	ast.Inspect(f, func(n ast.Node) bool {
+		ts, ok := n.(*ast.TypeSpec)
+		if !ok || ts.Name.Name != name {
+			return true
+		}
+		st, ok := ts.Type.(*ast.StructType)
+		if !ok {
+			return false
+		}
+		found = true
+		for _, fl := range st.Fields.List {
+			if len(fl.Names) == 0 {
+				out = append(out, "<embedded>")
+			}
+			for _, id := range fl.Names {
+				out = append(out, id.Name)
+			}
+		}
+		return false
+	})
+	return out, found
+}
+
+func runnerState(repo string) (string, error) {
+	fset := token.NewFileSet()
+	parse := func(rel string) (*ast.File, error) {
+		return parser.ParseFile(fset, filepath.Join(repo, rel), nil, 0)
+	}
+	rf, err := parse("ruleguard/runner.go")
+	if err != nil {
+		return "", err
+	}
+	gf, err := parse("ruleguard/ruleguard.go")
+	if err != nil {
+		return "", err
+	}
+	grf, err := parse("ruleguard/gorule.go")
+	if err != nil {
+		return "", err
+	}
+	wf, err := parse("ruleguard/ast_walker.go")
+	if err != nil {
+		return "", err
+	}
+	npf, err := parse("ruleguard/nodepath.go")
+	if err != nil {
+		return "", err
+	}
+	var sb strings.Builder
+	fmt.Fprintf(&sb, walkerHeader, "runnerstate", "ruleguard/{runner,ruleguard,gorule,ast_walker,nodepath,filters}.go, typematch/typematch.go, quasigo/quasigo.go")
+	for _, it := range []struct {
+		f    *ast.File
+		name string
+	}{{gf, "RunnerState"}, {rf, "rulesRunner"}, {grf, "filterParams"}, {wf, "astWalker"}, {npf, "nodePath"}} {
+		fields, ok := wkStructFields(it.f, it.name)
+		if !ok {
+			return "", fmt.Errorf("struct %s not found", it.name)
+		}
+		fmt.Fprintf(&sb, "Definition gen_fields_%s : list string := %s.\n", it.name, wkCoqStrList(fields))
+	}
+	// RunnerState.Reset
+	reset := wkFindFunc(rf, "RunnerState", "Reset")
+	if reset == nil {
+		return "", fmt.Errorf("RunnerState.Reset not found")
+	}
+	rn := reset.Recv.List[0].Names[0].Name
+	truncates, evalReset := false, false
+	for _, s := range reset.Body.List {
+		switch wkSrc(fset, s) {
+		case rn + ".nodePath.stack = " + rn + ".nodePath.stack[:0]":
+			truncates = true
+		case rn + ".evalEnv.Stack.Reset()":
+			evalReset = true
+		default:
+			return "", fmt.Errorf("RunnerState.Reset: statement not understood: %s", wkSrc(fset, s))
+		}
+	}
+	fmt.Fprintf(&sb, "Definition gen_reset_truncates_node_path : bool := %v.\nDefinition gen_reset_resets_eval_stack : bool := %v.\n", truncates, evalReset)
+	// newRulesRunner
+	nr := wkFindFunc(rf, "", "newRulesRunner")
+	if nr == nil {
+		return "", fmt.Errorf("newRulesRunner not found")
+	}
+	stateVar := ""
+	resetOnReuse := false
+	alias := map[string]string{} // local -> RunnerState field
+	var rrVar string
+	var lit *ast.CompositeLit
+	var later []string
+	for _, s := range nr.Body.List {
+		text := wkSrc(fset, s)
+		if m := regexp.MustCompile(`^(\w+) := ctx\.State$`).FindStringSubmatch(text); m != nil {
+			stateVar = m[1]
+			continue
+		}
+		if ifs, ok := s.(*ast.IfStmt); ok && stateVar != "" && ifs.Init == nil && wkSrc(fset, ifs.Cond) == stateVar+" == nil" {
+			// a nil state is replaced by a new one; a re-used state is Reset() first (further statements may follow)
+			if el, ok := ifs.Else.(*ast.BlockStmt); ok && len(ifs.Body.List) == 1 && len(el.List) >= 1 &&
+				strings.HasPrefix(wkSrc(fset, ifs.Body.List[0]), stateVar+" = newRunnerState(") &&
+				wkSrc(fset, el.List[0]) == stateVar+".Reset()" {
+				resetOnReuse = true
+			}
+			continue
+		}
+		if stateVar != "" {
+			if m := regexp.MustCompile(`^(\w+) := ` + stateVar + `\.(\w+)$`).FindStringSubmatch(text); m != nil {
+				if m[2] == "object" {
+					rrVar = m[1]
+				} else {
+					alias[m[1]] = m[2]
+				}
+				continue
+			}
+		}
+		if as, ok := s.(*ast.AssignStmt); ok && rrVar != "" && len(as.Lhs) == 1 && wkSrc(fset, as.Lhs[0]) == "*"+rrVar && as.Tok == token.ASSIGN {
+			cl, ok := as.Rhs[0].(*ast.CompositeLit)
+			if !ok || wkSrc(fset, cl.Type) != "rulesRunner" {
+				return "", fmt.Errorf("newRulesRunner: *%s is not assigned a rulesRunner literal", rrVar)
+			}
+			if lit != nil {
+				return "", fmt.Errorf("newRulesRunner: the runner object is assigned twice")
+			}
+			lit = cl
+			continue
+		}
+		if lit != nil {
+			later = append(later, text)
+		}
+	}
+	if stateVar == "" || rrVar == "" || lit == nil {
+		return "", fmt.Errorf("newRulesRunner: `*rr = rulesRunner{...}` over ctx.State.object not found")
+	}
+	fmt.Fprintf(&sb, "Definition gen_state_reset_when_reused : bool := %v.\n", resetOnReuse)
+	classify := func(e ast.Expr) string {
+		t := wkSrc(fset, e)
+		if a, ok := alias[t]; ok {
+			return "carried:" + a
+		}
+		if strings.HasPrefix(t, stateVar+".") {
+			return "carried:" + strings.TrimPrefix(t, stateVar+".")
+		}
+		bad := false
+		ast.Inspect(e, func(n ast.Node) bool {
+			if id, ok := n.(*ast.Ident); ok {
+				if _, ok := alias[id.Name]; ok || id.Name == stateVar || id.Name == rrVar {
+					bad = true
+				}
+			}
+			return true
+		})
+		if bad {
+			return "carried:?" + t
+		}
+		return "fresh"
+	}
+	emit := func(name string, cl *ast.CompositeLit, prefix string) error {
+		var rows []string
+		for _, e := range cl.Elts {
+			kv, ok := e.(*ast.KeyValueExpr)
+			if !ok {
+				return fmt.Errorf("newRulesRunner: positional literal")
+			}
+			key := wkSrc(fset, kv.Key)
+			if inner, ok := kv.Value.(*ast.CompositeLit); ok {
+				if wkSrc(fset, inner.Type) != "filterParams" || prefix != "" {
+					return fmt.Errorf("newRulesRunner: nested literal %s", key)
+				}
+				continue
+			}
+			rows = append(rows, fmt.Sprintf("(%s%%string, %s%%string)", strconv.Quote(key), strconv.Quote(classify(kv.Value))))
+		}
+		fmt.Fprintf(&sb, "Definition %s : list (string * string) := [%s].\n", name, strings.Join(rows, "; "))
+		return nil
+	}
+	if err := emit("gen_rr_literal", lit, ""); err != nil {
+		return "", err
+	}
+	var fpLit *ast.CompositeLit
+	for _, e := range lit.Elts {
+		if kv, ok := e.(*ast.KeyValueExpr); ok && wkSrc(fset, kv.Key) == "filterParams" {
+			fpLit, _ = kv.Value.(*ast.CompositeLit)
+		}
+	}
+	if fpLit == nil {
+		return "", fmt.Errorf("newRulesRunner: filterParams is not set to a fresh literal")
+	}
+	if err := emit("gen_fp_literal", fpLit, "fp"); err != nil {
+		return "", err
+	}
+	fmt.Fprintf(&sb, "(* statements of newRulesRunner after the literal *)\nDefinition gen_after_literal : list string := %s.\n", wkCoqStrList(later))
+	// rulesRunner.run refuses a non-empty node path
+	run := wkFindFunc(rf, "rulesRunner", "run")
+	guard := false
+	if run != nil && len(run.Body.List) > 0 {
+		guard = strings.HasPrefix(wkSrc(fset, run.Body.List[0]), "if "+run.Recv.List[0].Names[0].Name+".nodePath.Len() != 0 { panic(")
+	}
+	fmt.Fprintf(&sb, "Definition gen_run_requires_empty_node_path : bool := %v.\n", guard)
+	// per-match resets in the helper packages
+	tf, err := parse("ruleguard/typematch/typematch.go")
+	if err != nil {
+		return "", err
+	}
+	mi := wkFindFunc(tf, "Pattern", "MatchIdentical")
+	tmReset := mi != nil && len(mi.Body.List) >= 1 && len(mi.Type.Params.List) >= 1 &&
+		wkSrc(fset, mi.Body.List[0]) == mi.Type.Params.List[0].Names[0].Name+".reset()"
+	fmt.Fprintf(&sb, "Definition gen_typematch_resets_bindings_per_match : bool := %v.\n", tmReset)
+	qf, err := parse("ruleguard/quasigo/quasigo.go")
+	if err != nil {
+		return "", err
+	}
+	call := wkFindFunc(qf, "", "Call")
+	qOK := false
+	if call != nil && len(call.Body.List) == 6 {
+		var parts []string
+		for _, s := range call.Body.List {
+			parts = append(parts, wkSrc(fset, s))
+		}
+		qOK = strings.Join(parts, " | ") == "numObjectArgs := len(env.Stack.objects) | numIntArgs := len(env.Stack.ints) | result := eval(env, fn, 0, 0) | env.Stack.objects = env.Stack.objects[:numObjectArgs] | env.Stack.ints = env.Stack.ints[:numIntArgs] | return result"
+	}
+	fmt.Fprintf(&sb, "Definition gen_quasigo_call_truncates_stack : bool := %v.\n", qOK)
+	ff, err := parse("ruleguard/filters.go")
+	if err != nil {
+		return "", err
+	}
+	cf := wkFindFunc(ff, "", "makeVarContainsFilter")
+	presetFirst := false
+	if cf != nil {
+		ast.Inspect(cf, func(n ast.Node) bool {
+			fl, ok := n.(*ast.FuncLit)
+			if !ok || len(fl.Body.List) == 0 || len(fl.Type.Params.List) != 1 {
+				return true
+			}
+			p := fl.Type.Params.List[0].Names[0].Name
+			if wkSrc(fset, fl.Body.List[0]) == p+".gogrepSubState.CapturePreset = "+p+".match.CaptureList()" {
+				presetFirst = true
+			}
+			return false
+		})
+	}
+	fmt.Fprintf(&sb, "Definition gen_contains_sets_preset_before_use : bool := %v.\n", presetFirst)
+	return sb.String(), nil
+}
